@@ -548,10 +548,59 @@ func caseClass(p *Prop, c Case) string {
 	return c.Kind
 }
 
+// panicOrigin returns the function in which a panic / fatal error of the first goroutine of a
+// trace originated, as far as the blame goes: the first frame after the runtime's own panic
+// frames that belongs to the harness ("verif/...") or to the library. A panic that starts in
+// harness code (also in a harness callback invoked by the library) is a defect of the check,
+// never an observation about the library.
+func panicOrigin(detail string) string {
+	lines := strings.Split(detail, "\n")
+	start := -1
+	for i, l := range lines {
+		if strings.HasPrefix(l, "goroutine ") && strings.HasSuffix(strings.TrimSpace(l), ":") {
+			start = i + 1
+			break
+		}
+	}
+	if start < 0 {
+		return ""
+	}
+	end := len(lines)
+	for i := start; i < len(lines); i++ {
+		if strings.TrimSpace(lines[i]) == "" {
+			end = i
+			break
+		}
+	}
+	from := start
+	for i := start; i < end; i++ {
+		if strings.HasPrefix(lines[i], "panic(") {
+			from = i + 1
+		}
+	}
+	for i := from; i < end; i++ {
+		l := lines[i]
+		if strings.HasPrefix(l, "\t") || strings.HasPrefix(l, "created by ") {
+			continue
+		}
+		if strings.HasPrefix(l, "verif/") || strings.HasPrefix(l, "main.") || strings.Contains(l, "github.com/paulmach/osm") {
+			if j := strings.Index(l, "(0x"); j >= 0 {
+				l = l[:j]
+			}
+			return strings.TrimRight(l, "(")
+		}
+	}
+	return ""
+}
+
 func recordCrash(agg *Agg, c Case, what, detail string) {
 	agg.mu.Lock()
 	defer agg.mu.Unlock()
 	agg.Crashes++
+	if o := panicOrigin(detail); strings.HasPrefix(o, "verif/") || strings.HasPrefix(o, "main.") {
+		agg.Broken = append(agg.Broken, fmt.Sprintf("case %d (%s): panic inside the harness (%s), not an observation about the library: %s", c.Idx, c.Kind, o, trim(detail, 3000)))
+		return
+	}
 	if agg.Prop.CrashIsViolation {
 		agg.Violations = append(agg.Violations, CaseViolation{Case: c, V: Violation{
 			Key: "crash:" + crashSite(detail) + ":" + caseClass(agg.Prop, c), What: what + " (" + caseClass(agg.Prop, c) + ")", Detail: trim(detail, 6000)}})
